@@ -2,42 +2,76 @@ import HcipyVerif.Model.Zernike
 import Mathlib.Analysis.Complex.Trigonometric
 import Mathlib.Tactic.Ring
 
-/-! Helper lemmas for C13: the azimuthal factor of the model is `cos mθ` / `sin |m|θ` over `ℝ`. -/
+/-! Helper lemmas for C13: the azimuthal factor of the model is `cos mθ` / `sin |m|θ` over `ℝ`.
+
+`cisPow` / `azimQ` are scalar-polymorphic: the driver runs them at `Rat`; here the *same* definitions are
+instantiated at `ℝ` (every real `θ`, `cisPow_cos_sin`, `azimQ_cos_sin`) and the `Rat` instance is shown to be
+the restriction of the real one (`cisPow_cast`, `azimQ_cast`). -/
 
 set_option linter.unusedSimpArgs false
 set_option linter.unusedVariables false
 
 namespace HcipyVerif.Zernike
 
-/-- For a direction with rational cosine and sine, `(c + i s)^k = cos kθ + i sin kθ`. -/
-theorem cisPow_trig (c s : Rat) (θ : ℝ) (hc : (c : ℝ) = Real.cos θ) (hs : (s : ℝ) = Real.sin θ) :
-    ∀ k : Nat, ((cisPow c s k).1 : ℝ) = Real.cos (k * θ) ∧ ((cisPow c s k).2 : ℝ) = Real.sin (k * θ)
+/-- De Moivre over `ℝ`, for **every** real `θ`: `(cos θ + i sin θ)^k = cos kθ + i sin kθ`. -/
+theorem cisPow_cos_sin (θ : ℝ) : ∀ k : Nat,
+    cisPow (Real.cos θ) (Real.sin θ) k = (Real.cos (k * θ), Real.sin (k * θ))
   | 0 => by simp [cisPow]
   | k + 1 => by
-    obtain ⟨a, b⟩ := cisPow_trig c s θ hc hs k
+    have ih := cisPow_cos_sin θ k
     have e : ((k + 1 : Nat) : ℝ) * θ = k * θ + θ := by push_cast; ring
-    simp only [cisPow]
-    rw [e, Real.cos_add, Real.sin_add]
-    push_cast
-    rw [a, b, hc, hs]
-    constructor <;> ring
+    simp only [cisPow, ih]
+    rw [e, Real.cos_add, Real.sin_add, add_comm (Real.sin (↑k * θ) * Real.cos θ)]
 
-theorem azimQ_trig (m : Int) (c s : Rat) (θ : ℝ) (hc : (c : ℝ) = Real.cos θ) (hs : (s : ℝ) = Real.sin θ) :
-    (azimQ m c s : ℝ) = if m = 0 then 1 else if 0 < m then Real.cos (m * θ) else Real.sin (-m * θ) := by
+/-- the azimuthal factor the driver executes, instantiated at `ℝ`, for every real `θ` and every integer `m` -/
+theorem azimQ_cos_sin (m : Int) (θ : ℝ) :
+    azimQ m (Real.cos θ) (Real.sin θ) = if m = 0 then 1 else if 0 < m then Real.cos (m * θ) else Real.sin (-m * θ) := by
   unfold azimQ
   obtain ⟨k, rfl | rfl⟩ := Int.eq_nat_or_neg m
-  · obtain ⟨a, b⟩ := cisPow_trig c s θ hc hs k
+  · rw [cisPow_cos_sin]
     simp only [Int.natAbs_natCast, Int.cast_natCast]
-    split
-    · simp
-    · split
-      · exact a
-      · omega
-  · obtain ⟨a, b⟩ := cisPow_trig c s θ hc hs k
+    by_cases h0 : (k : Int) = 0
+    · simp [h0]
+    · have h1 : 0 < (k : Int) := by omega
+      simp only [h0, h1, if_false, if_true]
+  · rw [cisPow_cos_sin]
     simp only [Int.natAbs_neg, Int.natAbs_natCast, Int.cast_neg, Int.cast_natCast, neg_neg]
-    split
-    · simp
-    · split
-      · omega
-      · exact b
+    by_cases h0 : (k : Int) = 0
+    · simp [h0]
+    · have h1 : ¬ (0 < -(k : Int)) := by omega
+      have h2 : ¬ (-(k : Int) = 0) := by omega
+      simp only [h1, h2, if_false]
+
+/-- the `Rat` instance (what the driver runs) is the restriction of the `ℝ` instance -/
+theorem cisPow_cast (c s : Rat) : ∀ k : Nat,
+    (((cisPow c s k).1 : Rat) : ℝ) = (cisPow (c : ℝ) (s : ℝ) k).1 ∧
+    (((cisPow c s k).2 : Rat) : ℝ) = (cisPow (c : ℝ) (s : ℝ) k).2
+  | 0 => by simp [cisPow]
+  | k + 1 => by
+    obtain ⟨a, b⟩ := cisPow_cast c s k
+    simp only [cisPow]
+    push_cast
+    rw [a, b]
+    exact ⟨rfl, rfl⟩
+
+theorem azimQ_cast (m : Int) (c s : Rat) : ((azimQ m c s : Rat) : ℝ) = azimQ m (c : ℝ) (s : ℝ) := by
+  unfold azimQ
+  obtain ⟨a, b⟩ := cisPow_cast c s m.natAbs
+  split
+  · simp
+  · split
+    · exact a
+    · exact b
+
+/-- For a direction with rational cosine and sine, `(c + i s)^k = cos kθ + i sin kθ`. -/
+theorem cisPow_trig (c s : Rat) (θ : ℝ) (hc : (c : ℝ) = Real.cos θ) (hs : (s : ℝ) = Real.sin θ) (k : Nat) :
+    (((cisPow c s k).1 : Rat) : ℝ) = Real.cos (k * θ) ∧ (((cisPow c s k).2 : Rat) : ℝ) = Real.sin (k * θ) := by
+  obtain ⟨a, b⟩ := cisPow_cast c s k
+  rw [a, b, hc, hs, cisPow_cos_sin]
+  exact ⟨rfl, rfl⟩
+
+theorem azimQ_trig (m : Int) (c s : Rat) (θ : ℝ) (hc : (c : ℝ) = Real.cos θ) (hs : (s : ℝ) = Real.sin θ) :
+    ((azimQ m c s : Rat) : ℝ) = if m = 0 then 1 else if 0 < m then Real.cos (m * θ) else Real.sin (-m * θ) := by
+  rw [azimQ_cast, hc, hs, azimQ_cos_sin]
+
 end HcipyVerif.Zernike
